@@ -151,7 +151,9 @@ def run(ctx):
         # a container can then have a lower index than its parent)
         from ..engines import c_persist
         ctx.profile = {}
-        prod = c_persist.produce(ctx, weights=(0, 1, 2), force_in_range=True)
+        # (no stray links: the store's port counts are high-water marks by design, and whether a port that carried a link
+        #  once and is beyond the operation's signature deserves a cell is not for this property to say)
+        prod = c_persist.produce(ctx, weights=(0, 1, 2), force_in_range=True, stray_links=False)
         if prod is None:
             return
         h, _in_range, label = prod
@@ -160,7 +162,8 @@ def run(ctx):
         g0 = check_render(ctx, h, doc, "default", None)
         return
     feats = {"cond": ch.coin(3, 4, "f-cond"), "loop": ch.coin(3, 4, "f-loop"), "cfg": ch.coin(3, 4, "f-cfg"),
-             "calls": True, "poly": ch.coin(1, 2, "f-poly"), "meta": ch.coin(3, 4, "f-meta"), "insert": ch.coin(1, 3, "f-insert")}
+             "calls": True, "poly": ch.coin(1, 2, "f-poly"), "meta": ch.coin(3, 4, "f-meta"), "insert": ch.coin(1, 3, "f-insert"),
+             "odd_names": ch.coin(1, 3, "f-odd-names"), "second_ext": ch.coin(1, 3, "f-second-ext")}
     try:
         sim = BuilderSim(ctx, features=feats, max_steps=10 + ch.draw(45, "max-steps"))
         ctx.profile = {"root": sim.root_kind, **feats}
